@@ -355,6 +355,22 @@ def r12_6(cx):
     ok = is_call(e, 'ok') and any(is_call(c.args[0], MV + '::tags') or c.args[0].has_call(MV + '::tags') for c in e.calls('binary_search'))
     cx.check(ok, 'find_tag', doit, None, 'tags().binary_search(&wanted).ok()', fail_detail='find_tag is %s' % show(e)[:160])
     gv = prog.fn(MV + '::get_value')
+    # the i-th value lies between the (i-1)-th and the i-th end offset: the two offsets read are offsets[index - 1] (start)
+    # and offsets[index] (end), nothing else (offsets.first() for the start makes every value from the third on begin at
+    # the end of the first)
+    ix = [c for c in gv.calls('Index<I>>::index') if c.arg(1).strip().kind == 'agg' and c.arg(1).strip().info.get('variant') == 'Range']
+    okb = len(ix) == 1
+    if okb:
+        start, end = ix[0].arg(1).strip().args[0], ix[0].arg(1).strip().args[1]
+        sg = [g for g in start.calls() if g.op.rsplit('::', 1)[-1] in ('get', 'first', 'last', 'get_unchecked', 'index') and g.has_call(MV + '::offsets')]
+        eg = [g for g in end.calls() if g.op.rsplit('::', 1)[-1] in ('get', 'first', 'last', 'get_unchecked', 'index') and g.has_call(MV + '::offsets')]
+        def prev_index(e):
+            e = e.strip()
+            return e.kind == 'binop' and e.op == 'Sub' and e.a.strip().kind == 'param' and e.b.is_const_int(1)
+        okb = bool(sg) and bool(eg) and all(g.op.endswith('get') and len(g.args) == 2 and prev_index(g.args[1]) for g in sg) and \
+            all(g.op.endswith('get') and len(g.args) == 2 and g.args[1].strip().kind == 'param' for g in eg)
+    cx.check(okb, 'value-bounds', gv, ix[0].loc() if ix else None, 'value i = storage[header + offsets[i-1] .. header + offsets[i]] (0 and len at the ends)',
+             fail_detail='get_value does not slice between offsets[index - 1] and offsets[index]')
     finds = [f for f in prog.find_fns(prefix=MV + '::find') if f.name == MV + '::find']
     cx.require(len(finds) == 1, 'MessageView::find not found')
     f = finds[0]
